@@ -57,12 +57,14 @@ Qed.
 Lemma inject_Z_nonzero z : z <> 0%Z -> ~ inject_Z z == 0.
 Proof. intros H E. unfold Qeq in E. simpl in E. lia. Qed.
 
-(** ** the vector sums to one *)
-Lemma p_final_sums_to_one (pcs : list (Q * Z)) :
-  p_blocks NumQ pcs <> [] -> qsum (p_final NumQ pcs) == 1.
+(** ** the vector before the clamp [max(., 0.0)] sums to one *)
+Definition p_unclamped (pcs : list (Q * Z)) : list Q :=
+  map (fun x => x + p_leftover NumQ (p_blocks NumQ pcs)) (p_blocks NumQ pcs).
+
+Lemma p_unclamped_sums_to_one (pcs : list (Q * Z)) :
+  p_blocks NumQ pcs <> [] -> qsum (p_unclamped pcs) == 1.
 Proof.
-  intro H. unfold p_final. set (p := p_blocks NumQ pcs) in *.
-  change (qsum (map (fun x => x + p_leftover NumQ p) p) == 1).
+  intro H. unfold p_unclamped. set (p := p_blocks NumQ pcs) in *.
   rewrite qsum_map_add. unfold p_leftover. simpl. change (pysum NumQ p) with (qsum p).
   assert (Hl : ~ inject_Z (len p) == 0).
   { apply inject_Z_nonzero. unfold len. destruct p; [congruence|simpl; lia]. }
@@ -77,12 +79,12 @@ Proof. induction l; simpl; auto. now rewrite map_app, IHl. Qed.
 Lemma map_repeat {B C : Type} (f : B -> C) v n : map f (repeat v n) = repeat (f v) n.
 Proof. induction n; simpl; congruence. Qed.
 
-Lemma p_final_blocks (pcs : list (Q * Z)) :
+Lemma p_unclamped_blocks (pcs : list (Q * Z)) :
   let lo := p_leftover NumQ (p_blocks NumQ pcs) in
-  p_final NumQ pcs =
+  p_unclamped pcs =
   flat_map (fun pc => repeat (p_individual NumQ (fst pc) (snd pc) + lo) (Z.to_nat (snd pc))) pcs.
 Proof.
-  cbv zeta. unfold p_final, p_blocks. rewrite map_flat_map.
+  cbv zeta. unfold p_unclamped, p_blocks. rewrite map_flat_map.
   apply flat_map_ext. intro pc. now rewrite map_repeat.
 Qed.
 
@@ -146,6 +148,81 @@ Proof.
   split; auto. rewrite block_mass by auto. rewrite L. ring.
 Qed.
 
+(** ** the clamp: never a negative probability; the identity on a legal request *)
+Lemma pymax_Q_nonneg (a : Q) : 0 <= pymax (N := NumQ) a 0.
+Proof.
+  unfold pymax. simpl. destruct (Qle_bool 0 a) eqn:E; simpl.
+  - now apply Qle_bool_iff.
+  - apply Qle_refl.
+Qed.
+
+Lemma pymax_Q_id (a : Q) : 0 <= a -> pymax (N := NumQ) a 0 = a.
+Proof.
+  intro H. unfold pymax. simpl. apply Qle_bool_iff in H. now rewrite H.
+Qed.
+
+Lemma p_final_nonneg (pcs : list (Q * Z)) : Forall (fun x => 0 <= x) (p_final NumQ pcs).
+Proof.
+  unfold p_final. apply Forall_forall. intros x Hx. apply in_map_iff in Hx as [y [<- _]].
+  apply pymax_Q_nonneg.
+Qed.
+
+Definition requests_nonneg (pcs : list (Q * Z)) : Prop := Forall (fun pc => 0 <= fst pc) pcs.
+
+Lemma p_individual_nonneg P cnt : 0 <= P -> (0 <= cnt)%Z -> 0 <= p_individual NumQ P cnt.
+Proof.
+  intros HP Hc. unfold p_individual. destruct (cnt =? 0)%Z eqn:E; [apply Qle_refl|].
+  simpl. destruct (Qeq_bool (P / inject_Z cnt) 0); [apply Qle_refl|].
+  apply Qle_shift_div_l.
+  - change 0 with (inject_Z 0). rewrite <- Zlt_Qlt. lia.
+  - now rewrite Qmult_0_l.
+Qed.
+
+Lemma p_blocks_nonneg pcs : requests_nonneg pcs -> Forall (fun x => 0 <= x) (p_blocks NumQ pcs).
+Proof.
+  unfold requests_nonneg, p_blocks. induction pcs as [|[P cnt] pcs IH]; intro H; simpl.
+  - constructor.
+  - inversion H; subst. apply Forall_app. split; [|auto].
+    apply Forall_forall. intros x Hx.
+    destruct (Z_le_dec 0 cnt).
+    + apply repeat_spec in Hx. subst x. now apply p_individual_nonneg.
+    + exfalso. replace (Z.to_nat cnt) with 0%nat in Hx by lia. exact Hx.
+Qed.
+
+Lemma total_count_nonneg pcs : (0 <= total_count pcs)%Z.
+Proof. induction pcs as [|[P cnt] pcs IH]; simpl; lia. Qed.
+
+Lemma p_leftover_nonneg pcs :
+  present_mass pcs <= 1 -> 0 <= p_leftover NumQ (p_blocks NumQ pcs).
+Proof.
+  intro H. rewrite p_leftover_value. unfold Qdiv. apply Qmult_le_0_compat.
+  - unfold Qminus. now rewrite <- Qle_minus_iff.
+  - apply Qinv_le_0_compat. change 0 with (inject_Z 0). rewrite <- Zle_Qle. apply total_count_nonneg.
+Qed.
+
+Lemma p_final_unclamped pcs :
+  requests_nonneg pcs -> present_mass pcs <= 1 -> p_final NumQ pcs = p_unclamped pcs.
+Proof.
+  intros H1 H2. unfold p_final, p_unclamped. apply map_ext_in. intros x Hx.
+  apply pymax_Q_id.
+  assert (Hn := p_blocks_nonneg pcs H1). rewrite Forall_forall in Hn.
+  assert (Hl := p_leftover_nonneg pcs H2).
+  change (0 <= x + p_leftover NumQ (p_blocks NumQ pcs)).
+  rewrite <- (Qplus_0_l 0). apply Qplus_le_compat; auto.
+Qed.
+
+Lemma p_final_sums_to_one pcs :
+  requests_nonneg pcs -> present_mass pcs <= 1 -> p_blocks NumQ pcs <> [] ->
+  qsum (p_final NumQ pcs) == 1.
+Proof. intros H1 H2 H3. rewrite p_final_unclamped by auto. now apply p_unclamped_sums_to_one. Qed.
+
+Lemma p_final_blocks pcs :
+  requests_nonneg pcs -> present_mass pcs <= 1 ->
+  let lo := p_leftover NumQ (p_blocks NumQ pcs) in
+  p_final NumQ pcs =
+  flat_map (fun pc => repeat (p_individual NumQ (fst pc) (snd pc) + lo) (Z.to_nat (snd pc))) pcs.
+Proof. intros H1 H2. cbv zeta. rewrite p_final_unclamped by auto. apply p_unclamped_blocks. Qed.
+
 (** ** the table of the real call: blocks of probabilities lie over blocks of pool indices *)
 Lemma p_blocks_class_table from to col all cp d :
   p_blocks NumQ (class_table NumQ from to col all cp d) =
@@ -182,18 +259,27 @@ Proof.
   - destruct (Qeq_bool k x); auto.
 Qed.
 
-Lemma fill_probabilities_spec (all : list Q) (cp cp' : dict NumQ) :
-  fill_probabilities NumQ all cp = Some cp' ->
+Lemma pymax0_Q (x : Q) : 0 <= pymax (N := NumQ) 0 x /\ (0 <= x -> pymax (N := NumQ) 0 x == x).
+Proof.
+  unfold pymax. simpl. destruct (Qle_bool x 0) eqn:E; simpl.
+  - split; [apply Qle_refl|]. intro H. apply Qle_bool_iff in E. now apply Qle_antisym.
+  - split; [|reflexivity]. destruct (Qlt_le_dec 0 x) as [L|L]; [now apply Qlt_le_weak|].
+    apply Qle_bool_iff in L. congruence.
+Qed.
+
+Lemma fill_probabilities_spec (tol : Q) (all : list Q) (cp cp' : dict NumQ) :
+  fill_probabilities NumQ tol all cp = Some cp' ->
   let undef := undefined_classes NumQ all cp in
-  qsum (map snd cp) <= 1 /\
+  let missing := pymax (N := NumQ) 0 (1 - qsum (map snd cp)) in
+  qsum (map snd cp) <= 1 + tol /\
   (forall k v, In (k, v) cp -> exists c, In c all /\ k == c) /\
   (forall k v, lookup NumQ k cp = Some v -> lookup NumQ k cp' = Some v) /\
-  (forall k, In k undef ->
-     lookup NumQ k cp' = Some ((1 - qsum (map snd cp)) / inject_Z (len undef))).
+  (forall k, In k undef -> lookup NumQ k cp' = Some (missing / inject_Z (len undef))) /\
+  0 <= missing /\ (qsum (map snd cp) <= 1 -> missing == 1 - qsum (map snd cp)).
 Proof.
   unfold fill_probabilities. cbv zeta. simpl.
   change (pysum NumQ (map snd cp)) with (qsum (map snd cp)).
-  destruct (negb (Qle_bool (qsum (map snd cp)) 1)) eqn:E1; [discriminate|].
+  destruct (negb (Qle_bool (qsum (map snd cp)) (1 + tol))) eqn:E1; [discriminate|].
   destruct (negb (forallb (fun kv : Q * Q => existsb (Qeq_bool (fst kv)) all) cp)) eqn:E2; [discriminate|].
   intro H. injection H as <-. repeat split.
   - apply Qle_bool_iff. now apply negb_false_iff in E1.
@@ -206,4 +292,6 @@ Proof.
     { unfold undefined_classes in Hk. apply filter_In in Hk as [_ Hk]. unfold has_key in Hk.
       now destruct (lookup NumQ k cp). }
     rewrite Hn. now apply lookup_const.
+  - apply pymax0_Q.
+  - intro Hs. apply pymax0_Q. unfold Qminus. now rewrite <- Qle_minus_iff.
 Qed.
